@@ -159,7 +159,8 @@ def gen_scenario(rng, tier, focus, knobs):
             trig = rng.choice([rps.AGENT_SCHEDULING, rps.AGENT_EXECUTING_PENDING,
                                rps.AGENT_EXECUTING_PENDING,
                                rps.AGENT_EXECUTING, rps.AGENT_EXECUTING,
-                               'spawn', 'spawn', 'exit', 'exit'])
+                               'spawn', 'spawn', 'exit', 'exit',
+                               'pre_exit', 'pre_exit'])
             # the trigger task first, then (half of the time) one or two
             # others: handling those keeps the cancel handler busy
             extra = [i]
@@ -172,17 +173,34 @@ def gen_scenario(rng, tier, focus, knobs):
                 for k in extra:
                     if rng.random() < 0.6:
                         tasks[k]['runtime'] = rng.choice([1.0, 2.5])
-            ops.append([0.0, 'cancel_on', extra, i, trig])
+            lead = 0.0
+            if trig == 'pre_exit':
+                lead = rng.choice([0.0, 0.0, 0.005, 0.02, 0.05])
+            ops.append([lead, 'cancel_on', extra, i, trig])
     if any(t['descr'].get('named_env') for t in tasks):
         if rng.random() < 0.8:
             ops.append([round(rng.uniform(0.0, 2.0), 2), 'named_env', 'env0'])
+    exit_race = bool(knobs.get('exit_race')) and \
+        rng.random() < knobs['exit_race']
+    if exit_race:
+        # every task is cancelled around the instant at which its process
+        # ends by itself, threads are descheduled often
+        for i, t in enumerate(tasks):
+            if t['preplaced'] or t.get('spawn_error'):
+                continue
+            t['runtime'] = rng.choice([0.3, 0.5, 1.0])
+            t['descr'].pop('timeout', None)
+            ops.append([rng.choice([0.0, 0.005, 0.02, 0.04]), 'cancel_on',
+                        [i], i, 'pre_exit'])
     ops.sort()
     return {'focus': focus, 'layout': lay, 'tasks': tasks, 'ops': ops,
             'delay_max': rng.choice([0.0, 0.0, 0.02, 0.1]),
             'preempt': knobs.get('preempt', 0.0) if rng.random() < 0.7 else 0.0,
             'yield_prob': rng.choice([1.0, 1.0, 0.5]),
             'bulk_max': rng.choice([1, 4, 64, 1024]),
-            'stall': rng.choice([0.0, 0.0, 0.01, 0.03])
+            'stall': (0.2 if exit_race else
+                      rng.choice(knobs.get('stall_choices',
+                                           [0.0, 0.0, 0.01, 0.03])))
             if knobs.get('stall', True) else 0.0}
 
 
@@ -381,7 +399,7 @@ def run(seed, sc, trace=None, tier='quick'):
                 def hook(ev):
                     if hit['seen']:
                         return
-                    if trig == 'spawn':
+                    if trig in ('spawn', 'pre_exit'):
                         if ev['kind'] == 'proc_spawn' and ev.get('tag') == uid:
                             hit['seen'] = True
                     elif trig == 'exit':
@@ -398,6 +416,14 @@ def run(seed, sc, trace=None, tier='quick'):
                     sim.block(lambda: hit['seen'], 60.0, what='cancel_on')
                     if not hit['seen']:
                         return
+                    if trig == 'pre_exit':
+                        # the request is issued a moment before the process
+                        # ends by itself: it reaches the executor around the
+                        # instant of the exit
+                        rt = (st['plans'].get(uid) or {}).get('runtime', 0.0)
+                        if rt >= 1000:
+                            return
+                        sim.sleep(max(0.0, rt - op[0]))
                     uids = ['task.%06d' % k for k in idxs]
                     sim.fault('cancel')
                     sim.fault('cancel_on:%s' % trig)
@@ -536,6 +562,15 @@ def make_check(prop, focuses, knobs, nontrivial):
             sc['jsrun'] = True
             for t in sc['tasks']:
                 t['preplaced'] = False
+                d = t['descr']
+                # resource sets with several ranks (shared GPUs), with and
+                # without a ranks-per-node limit
+                if sc['layout']['gpn'] and d.get('ranks', 1) > 1 and \
+                        rng.random() < 0.4:
+                    d['gpus_per_rank'] = rng.choice([0.5, 0.5, 0.25])
+                    d['cores_per_rank'] = 1
+                    if rng.random() < 0.6:
+                        d['ranks_per_node'] = rng.choice([1, 2, 2, 4])
             return sc
         return gen_scenario(rng, tier, focus, knobs)
 
